@@ -3,6 +3,7 @@
 -/
 import ErgoProofs.Lemmas.ReachInv
 import ErgoProofs.Lemmas.PropsAux
+import ErgoProofs.Lemmas.DiskInv
 namespace Ergo
 
 /-- at all times each task's epic is empty or the id of an existing, unpruned epic; epics belong to nothing -/
@@ -29,5 +30,12 @@ theorem C14_prune_keeps_referenced_epics (g : Graph) (hwf : WF g) (t e : Task) (
     (hte : t.isEpic = false) (hee : e.isEpic = true) (href : t.epicId = e.id) (hne : e.id ≠ "")
     (hkeep : t.id ∉ pruneTargets g) : e.id ∉ pruneTargets g :=
   prune_keeps_referenced_epics g hwf t e ht he hte hee href hne hkeep
+
+/-- the same about what is **on disk**: after any command history the bytes of the store read back (real line format) to a log in whose
+    graph every task's epic is empty or names a live epic -/
+theorem C14_inv_holds_of_the_bytes_on_disk {limit : Nat} {log : List Event} {f : Storage.Bytes} (h : Codec.DiskReach limit log f) :
+    ∃ g, Storage.readEvents Codec.classifyLine limit f = .ok log ∧ replay log = .ok g ∧ Inv14 g := by
+  obtain ⟨g, hf, hr, hinv⟩ := Codec.disk_allInv h
+  exact ⟨g, hf, hr, hinv.i14⟩
 
 end Ergo
